@@ -232,7 +232,7 @@ func (m *machine) bindThenWrite(t *rapid.T) {
 	si := rapid.IntRange(0, len(m.w.Servers)-1).Draw(t, "server")
 	cands := clientsFor(m.w, si)
 	client := cands[rapid.IntRange(0, len(cands)-1).Draw(t, "client")]
-	if m.ent2Gone[pi] && client.Ent[0] == 2 {
+	if m.ent2Gone[pi] && len(client.Ent) == 1 && client.Ent[0] == 2 {
 		t.Skip("entity removed")
 	}
 	c := regs.Call{Peer: pi, Client: client, Server: regs.ServerRefs[si], Type: m.w.Servers[si].Type,
@@ -348,7 +348,7 @@ func (m *machine) entityRemoveThenWrite(t *rapid.T) {
 	// find a binding held by a feature of entity [2], if any, to check immediacy
 	var target *entry
 	for _, b := range m.bindings() {
-		if b.pi == pi && b.client.Ent[0] == 2 {
+		if b.pi == pi && len(b.client.Ent) == 1 && b.client.Ent[0] == 2 {
 			b := b
 			target = &b
 		}
